@@ -209,3 +209,19 @@ Definition parse_with (ops : list pop) (ts : list ltok) : option (green * list (
              end
   | PCrash => None
   end.
+
+(* ------------------------------------------------------------------------------------------ *)
+(* Finding F16.  Builds without debug assertions (`cargo build --release`) compile the           *)
+(* debug_assert of expect_tokens_recover out: when a production calls it although the next      *)
+(* token is in the expected set (productions/concurrent_statement.rs does so for a label that   *)
+(* is not followed by a statement), the loop returns in its first iteration through the         *)
+(* `expected.contains(&tok)` branch and records the span `start + initial_trivia_len .. start`.  *)
+(* ------------------------------------------------------------------------------------------ *)
+Definition p_recover_noassert (n : nat) (hit_expected : bool) (s : pstate) : pres :=
+  match n, hit_expected, peek_is_eof s with
+  | O, true, false =>
+    let start := b_text_len (p_builder s) in
+    let itl := match p_stream s with (t, _) :: _ => trivia_len (t_trivia t) | [] => 0 end in
+    POk (mkP (p_stream s) (p_builder s) (p_errors s ++ [(start + itl, start)]))
+  | _, _, _ => p_recover n hit_expected s
+  end.
